@@ -114,6 +114,7 @@ type Snap struct {
 	Val    *Term // written value (writes)
 	Idx    *Term // index (slot stores / index sites)
 	Trail  string
+	TrailL []Lit
 	Sticky map[string]Lit
 }
 
